@@ -372,7 +372,11 @@ fn plan(thorough: bool) -> Vec<Spec> {
         }
         v.push(Spec { api, fix: "l-big-first", threads: 0, bat: Bat::NA, shape: asks[0], skip: false, light: false });
     }
-    v
+    // fixed (seed-independent) permutation: spreads the long requests over the shards and makes the first cases of a
+    // shard — the ones written out as samples — a mixture of interfaces
+    let mut keyed: Vec<(u64, Spec)> = v.into_iter().enumerate().map(|(i, s)| (mix(i as u64), s)).collect();
+    keyed.sort_by_key(|x| x.0);
+    keyed.into_iter().map(|x| x.1).collect()
 }
 
 // ----------------------------------------------------------------- requests
@@ -698,7 +702,7 @@ fn pairs_to_outcome(r: Result<Vec<(String, Vec<u8>)>, Error>) -> Outcome {
 fn exec(c: &mut Case, sp: &Spec, pr: &Prep, fixes: &mut [Fix], rng: &mut Rng, repeats: usize, st: &mut Stats) {
     let api = sp.api.name();
     let path = pr.path;
-    let ctx = json!({"archive": sp.fix, "threads": sp.threads, "batch": sp.bat.label(), "shape": sp.shape, "skip_errors": sp.skip});
+    let mut ctx = json!({"archive": sp.fix, "threads": sp.threads, "batch": sp.bat.label(), "shape": sp.shape, "skip_errors": sp.skip});
     // the library's extract_with_config builds its own pool; every other interface runs in the ambient pool
     let pool = if sp.threads > 0 && sp.api != Api::Ewc {
         match rayon::ThreadPoolBuilder::new().num_threads(sp.threads).build() {
@@ -816,6 +820,8 @@ fn exec(c: &mut Case, sp: &Spec, pr: &Prep, fixes: &mut [Fix], rng: &mut Rng, re
 
     for k in 0..repeats {
         let dseed = if k == 0 { 0 } else { rng.next_u64() | 1 };
+        ctx["repeat"] = json!(k);
+        ctx["injected_delays"] = json!(dseed != 0);
         trace_start(dseed);
         let res: Result<Outcome, vh_common::PanicInfo> = trap(|| match sp.api {
             Api::Ewc => {
@@ -1053,8 +1059,9 @@ fn exec(c: &mut Case, sp: &Spec, pr: &Prep, fixes: &mut [Fix], rng: &mut Rng, re
         c.count("single_thread_or_single_task_configs", 1);
     }
     // a configuration compares something unless its request is empty
-    if req.is_empty() && sp.api != Api::Search {
+    if (req.is_empty() && sp.api != Api::Search) || (sp.api == Api::Search && apaths.is_empty()) {
         c.count("empty_request_configs", 1);
+        c.nontrivial = false; // only "an empty request yields an empty result" was compared
     }
 }
 
